@@ -136,6 +136,9 @@ func setreqCmd(args []string) *rep.Result {
 					if strings.HasPrefix(m, "unmarshal") && !(len(e.Req) == 1 && e.Req[0].K == "upd" && e.Req[0].T == "json" && len(e.Req[0].P) == 0) {
 						continue
 					}
+					if strings.HasPrefix(m, "setreq-extra") && !(len(e.Req) == 1 && e.Req[0].K == "upd" && e.Req[0].T == "json" && len(e.Req[0].P) > 0) {
+						continue
+					}
 					jobs <- job{e, pkg, v, m}
 				}
 			}
@@ -386,7 +389,7 @@ func runReq(e *ReqEdge, pkg *reg.Pkg, x *conc.Ctx, mode string, res *rep.Result)
 		if !proto.Equal(before, n) {
 			res.Violate("C11", reqSig("C11", "notification-mutated", e, pkg, x, mode), "UnmarshalNotifications modified the notification: before "+compactProto(before)+" after "+compactProto(n), rc)
 		}
-	case mode == "setreq" || mode == "notif":
+	case mode == "setreq" || mode == "notif" || strings.HasPrefix(mode, "setreq-extra"):
 		req := &gpb.SetRequest{}
 		for i := range e.Req {
 			o := &e.Req[i]
@@ -410,11 +413,31 @@ func runReq(e *ReqEdge, pkg *reg.Pkg, x *conc.Ctx, mode string, res *rep.Result)
 				req.Update = append(req.Update, u)
 			}
 		}
+		var sopts []ytypes.UnmarshalOpt
+		if strings.HasPrefix(mode, "setreq-extra") {
+			// an unknown member in the JSON payload addressed to a container / list entry / the root
+			for _, u := range req.Update {
+				var doc interface{}
+				if json.Unmarshal(u.Val.GetJsonIetfVal(), &doc) != nil {
+					continue
+				}
+				if _, isObj := doc.(map[string]interface{}); !isObj {
+					res.Skip(1)
+					return
+				}
+				addUnknown(doc, x.Seed)
+				b, _ := json.Marshal(doc)
+				u.Val = &gpb.TypedValue{Value: &gpb.TypedValue_JsonIetfVal{JsonIetfVal: b}}
+			}
+			if mode == "setreq-extra-ignored" {
+				sopts = append(sopts, &ytypes.IgnoreExtraFields{})
+			}
+		}
 		splitPrefix(req, int(x.Seed%4))
 		before := proto.Clone(req)
 		desc = compactProto(req)
 		sch := &ytypes.Schema{Root: root, SchemaTree: st}
-		callErr, pan = guard(func() error { return ytypes.UnmarshalSetRequest(sch, req) })
+		callErr, pan = guard(func() error { return ytypes.UnmarshalSetRequest(sch, req, sopts...) })
 		if !proto.Equal(before, req) {
 			res.Violate("C11", reqSig("C11", "setrequest-mutated", e, pkg, x, mode), "UnmarshalSetRequest modified the request: before "+compactProto(before)+" after "+compactProto(req), rc)
 		}
@@ -447,17 +470,17 @@ func runReq(e *ReqEdge, pkg *reg.Pkg, x *conc.Ctx, mode string, res *rep.Result)
 		res.Sample(map[string]interface{}{"pkg": pkg.Name, "variant": x.V.Name, "mode": mode, "input": desc, "pre": conc.Restrict(pre, x.V).Lines(), "post": got.Lines()})
 	}
 	prop := "C13"
-	if strings.HasPrefix(mode, "unmarshal") {
+	if strings.HasPrefix(mode, "unmarshal") || strings.HasPrefix(mode, "setreq-extra") {
 		prop = "C31"
 	}
 	if pan != "" {
 		res.Violate("C20", reqSig("C20", "panic", e, pkg, x, mode), "panic: "+firstLine(pan)+" on "+desc, rc)
 		return
 	}
-	if mode == "unmarshal-extra" {
+	if mode == "unmarshal-extra" || mode == "setreq-extra" {
 		// unknown members without IgnoreExtraFields must be an error
 		if callErr == nil {
-			res.Violate("C31", reqSig("C31", "unknown-member-accepted", e, pkg, x, mode), "Unmarshal accepted a document with an unknown member: "+desc, rc)
+			res.Violate("C31", reqSig("C31", "unknown-member-accepted", e, pkg, x, mode), mode+" accepted a document with an unknown member: "+desc, rc)
 		}
 		return
 	}
